@@ -163,7 +163,7 @@ def gen_dense(rng, size):
     return ops, sh
 
 
-def make_script(sections, loom="node0", pid=100):
+def make_script(sections, loom="node0", pid=100, barrier_before_free=False):
     out = ["proc 1 %s %d" % (loom, pid)]
     for tid, ops in sections:
         out.append("thread")
@@ -171,6 +171,8 @@ def make_script(sections, loom="node0", pid=100):
         out.append("cpu 0 0")
         out.extend(ops)
         out.append("flush")
+        if barrier_before_free:
+            out.append("barrier")      # all threads free (and relocate) at the same time
         out.append("free")
         out.append("end")
     out.append("fini")
@@ -211,7 +213,7 @@ def gen_case(chk, i):
         for t in range(nth):
             ops, sh = gen_soup(rng, rng.choice([100, 1000]), big=1)
             secs.append((2000 + t, ops))
-        info.update(kind="mt-soup", threads=nth)
+        info.update(kind="mt-soup", threads=nth, tmpdir=(i // 10) % 2 == 0, barrier=True)
     elif (i // 10) % 2 == 0:
         ops, sh = gen_soup(rng, rng.choice([200, 2000]))
         info.update(kind="soup-shortwrite", nops=len(ops), shortwrite=rng.randint(1, 10 ** 6))
@@ -223,7 +225,7 @@ def gen_case(chk, i):
         ops, sh = gen_soup(rng, rng.choice([50, 400]))
         info.update(kind="soup-eintr", nops=len(ops), eintr=rng.randint(1, 10 ** 6))
         secs = [(1000 + i % 50, ops)]
-    info["script"] = make_script(secs)
+    info["script"] = make_script(secs, barrier_before_free=info.get("barrier", False))
     info["autoflush_expected"] = None
     return info
 
@@ -242,6 +244,8 @@ def run_case(i, script=None, info=None):
         env["RTDRV_SHORTWRITE"] = str(info["shortwrite"])
     if info.get("eintr"):
         env["RTDRV_EINTR"] = str(info["eintr"])
+    if info.get("tmpdir"):
+        env["OVNI_TMPDIR"] = os.path.join(wd, "tmp")
     res = rt.run_script(drv, info["script"], wd, env=env, timeout=120)
     out = {"i": i, "kind": info["kind"], "viol": None, "inconclusive": None,
            "events": 0, "markers": 0, "bytes": 0, "feat": set(), "shortwrites": 0, "aborted_on_fault": 0}
